@@ -96,17 +96,35 @@ func main() {
 		}
 		n := 0
 		base := filepath.Base(f)
-		ast.Inspect(file, func(node ast.Node) bool {
-			switch b := node.(type) {
-			case *ast.BlockStmt:
-				b.List = rewriteList(fset, base, b.List, &n)
-			case *ast.CaseClause:
-				b.Body = rewriteList(fset, base, b.Body, &n)
-			case *ast.CommClause:
-				b.Body = rewriteList(fset, base, b.Body, &n)
+		for _, decl := range file.Decls {
+			fd, ok := decl.(*ast.FuncDecl)
+			if !ok || fd.Body == nil {
+				continue
 			}
-			return true
-		})
+			// site = file:function:line (methods as Type.Method)
+			name := fd.Name.Name
+			if fd.Recv != nil && len(fd.Recv.List) == 1 {
+				t := fd.Recv.List[0].Type
+				if st, ok := t.(*ast.StarExpr); ok {
+					t = st.X
+				}
+				if id, ok := t.(*ast.Ident); ok {
+					name = id.Name + "." + name
+				}
+			}
+			site := base + ":" + name
+			ast.Inspect(fd.Body, func(node ast.Node) bool {
+				switch b := node.(type) {
+				case *ast.BlockStmt:
+					b.List = rewriteList(fset, site, b.List, &n)
+				case *ast.CaseClause:
+					b.Body = rewriteList(fset, site, b.Body, &n)
+				case *ast.CommClause:
+					b.Body = rewriteList(fset, site, b.Body, &n)
+				}
+				return true
+			})
+		}
 		if n == 0 {
 			continue
 		}
